@@ -111,11 +111,11 @@ func TestC03(t *testing.T) {
 		}
 		var pos uint64
 		startClass := "start=0"
-		switch rapid.IntRange(0, 6).Draw(rt, "startClass") {
-		case 6:
+		switch rapid.IntRange(0, 7).Draw(rt, "startClass") {
+		case 6, 7:
 			// just below a byte/word boundary of the counter: carries between counter bytes
 			k := rapid.SampledFrom([]int{8, 16, 24, 31}).Draw(rt, "startBoundaryBit")
-			c0 := uint32((uint64(1) << k) - uint64(rapid.IntRange(1, 4).Draw(rt, "startBoundaryK")))
+			c0 := uint32((uint64(1) << k) - uint64(rapid.IntRange(1, 70).Draw(rt, "startBoundaryK")))
 			ciph.SetCounter(c0)
 			pos, startClass = 64*uint64(c0), "start=2^{8,16,24,31}-k"
 		case 0:
